@@ -819,6 +819,14 @@ fn build_case(c: &Value) -> Built {
         other => panic!("unknown rdlen policy {other}"),
     }
     .min(65535);
+    // prefix sweep (kind "trunc"): the RDATA ends after `cut` octets and RDLENGTH says so
+    let rdlen = match c["cut"].as_u64() {
+        Some(k) => {
+            rdata.truncate(k as usize);
+            rdata.len()
+        }
+        None => rdlen,
+    };
     m.extend_from_slice(&(rdlen as u16).to_be_bytes());
     m.extend_from_slice(&rdata);
     if follow {
@@ -909,7 +917,7 @@ fn grammar_case(c: &Value) -> Value {
         RData::read(sub, RecordType::from(code)).map(|_| ()).map_err(|e| e.to_string())
     })));
     let t4 = thread_cpu_us();
-    json!({"ev": "g", "case": c["id"], "kind": c["kind"], "type": c["type"], "code": code, "tags": c["tags"], "ctx": c["ctx"], "tlv": c["tlv"],
+    json!({"ev": "g", "case": c["id"], "kind": c["kind"], "type": c["type"], "code": code, "tags": c["tags"], "ctx": c["ctx"], "tlv": c["tlv"], "cut": c["cut"].as_i64().unwrap_or(-1),
         "len": bytes.len(), "rdlen": b.rdlen, "recEnd": b.rec_end,
         "msg": msg, "req": {"out": q_out, "err": q_err},
         "rec": {"out": r_out, "err": r_err, "next": r_val.map(|v| v.0 as i64).unwrap_or(-1), "limits": r_val.map(|v| v.1).unwrap_or(true)},
@@ -963,20 +971,35 @@ fn read_name_job((buf, start): (Vec<u8>, usize)) -> Result<Result<(Value, usize)
 fn grammar_mode(trace: &mut dyn io::Write, out: &mut dyn io::Write) {
     let mut hangs = 0;
     let mut n = 0usize;
+    let mut events = 0usize;
     let mut worker: Worker<Value, Value> = Worker::new(|c| grammar_case(&c));
     for line in io::stdin().lock().lines() {
         let line = line.unwrap();
         if line.trim().is_empty() {
             continue;
         }
-        let c: Value = serde_json::from_str(&line).unwrap();
+        let c0: Value = serde_json::from_str(&line).unwrap();
         n += 1;
+        // a "trunc" case stands for every proper prefix of its RDATA
+        let variants: Vec<Value> = if c0["kind"] == "trunc" {
+            (0..build_case(&c0).rdata.len())
+                .map(|k| {
+                    let mut c = c0.clone();
+                    c["cut"] = json!(k);
+                    c["id"] = json!(format!("{}-cut{k}", c0["id"].as_str().unwrap_or("?")));
+                    c
+                })
+                .collect()
+        } else {
+            vec![c0]
+        };
+        for c in variants {
         let ev = match worker.call(c.clone(), 20) {
             Some(ev) => ev,
             None => {
                 hangs += 1;
                 let b = build_case(&c);
-                json!({"ev": "g", "case": c["id"], "kind": c["kind"], "type": c["type"], "code": c["code"], "tags": c["tags"], "ctx": c["ctx"], "tlv": c["tlv"],
+                json!({"ev": "g", "case": c["id"], "kind": c["kind"], "type": c["type"], "code": c["code"], "tags": c["tags"], "ctx": c["ctx"], "tlv": c["tlv"], "cut": c["cut"].as_i64().unwrap_or(-1),
                     "len": b.msg.len(), "rdlen": b.rdlen, "recEnd": b.rec_end,
                     "msg": {"out": "HANG", "err": "", "fix": "n/a", "rdataSame": "n/a", "limits": true, "present": "n/a"},
                     "req": {"out": "HANG", "err": ""}, "rec": {"out": "HANG", "err": "", "next": -1, "limits": true},
@@ -984,11 +1007,16 @@ fn grammar_mode(trace: &mut dyn io::Write, out: &mut dyn io::Write) {
             }
         };
         writeln!(trace, "{ev}").unwrap();
+        events += 1;
+        if hangs >= 3 {
+            break;
+        }
+        }
         if hangs >= 3 {
             break;
         }
     }
-    writeln!(out, "{}", json!({"cases": n, "hangs": hangs})).unwrap();
+    writeln!(out, "{}", json!({"cases": n, "events": events, "hangs": hangs})).unwrap();
 }
 
 fn main() {
